@@ -25,8 +25,9 @@ READY_C08 = True
 COQ_PROPS_C07 = ['Properties_C07_kll']
 COQ_PROPS_C08 = ['Properties_C08_kll']
 
-RULE_C07 = ('operation scripts over up to 4 registers holding kll_sketch<int64_t>, kll_sketch<double> (integer values, NaN updates and NaN split points) or '
-            'kll_sketch<string, greater> (order-isomorphic encoding): k in {8,9,16,20,200} plus refused k (0,7,65536); streams sorted/reversed/random/constant/'
+RULE_C07 = ('operation scripts over up to 4 registers holding kll_sketch<int64_t>, kll_sketch<double> (integer values, NaN updates and NaN split points), '
+            'kll_sketch<string, greater> (order-isomorphic encoding) or kll_sketch<int64_t, DirCmp> with a STATEFUL comparator instance whose default-constructed '
+            'value orders the other way (code using C() instead of the stored comparator mis-orders merges): k in {8,9,16,20,200} plus refused k (0,7,65536); streams sorted/reversed/random/constant/'
             'heavy duplicates of 0..~1500 items; merges of equal and unequal k, exact/estimating/empty operands, lvalue and rvalue, merge chains and trees '
             '(level 0 left empty by a merge is frequent; 16 query -> change of content (update, merge of an empty / single-item / exact-mode / estimation-mode source, lvalue and rvalue, copy assignment) -> same queries histories: a cached sorted view must not survive; family klldeep: a sketch merged with a copy of itself 30..38 times (k = 8, 9, 20; 30..40 levels, at least one history beyond 33), n, iterator weights, sorted-view total and ranks checked after every merge; 5 merges of two estimation-mode sketches, k in {200, 20, 50, 30}, in which general_compress itself adds a level, sizes chosen with the size-only simulation, observed before and after and while further updates fill the buffer up to the next compaction: num_retained <= compute_total_capacity(k, num_levels) with the implementation\'s own num_levels; 12 merge trees of depth >= 2 with 3-4 distinct k from 8..400 whose deepest operand is in estimation mode: min_k and the published rank error are checked against the minimum over the tree); after the history every register is observed (n, min, max, num_retained, iterator listing) and queried: '
             'rank grid, dyadic quantile grid incl. 0 and 1 and out-of-range ranks, CDF/PMF with valid, unsorted, duplicate and NaN split points, sorted-view listing; '
@@ -242,7 +243,7 @@ def gen_c07(rng, tier):
     # merges of two estimation-mode sketches in which general_compress itself adds a level (capacity bookkeeping of the merge path:
     # the space bound num_retained <= compute_total_capacity(k, num_levels) afterwards); k with bottom-level capacities above the minimum 8
     for gi in range(5 if not thorough else 40):
-        k = [200, 20, 50, 200, 30][gi % 5]; kind = rng.choice([0, 0, 1])
+        k = [200, 20, 50, 200, 30][gi % 5]; kind = rng.choice([0, 0, 1, 3])
         for _ in range(300):
             na = rng.randrange(k + 1, 4 * k); nb = rng.randrange(k + 1, 4 * k)
             a = Sz(k); b = Sz(k); fl = 0
@@ -267,7 +268,7 @@ def gen_c07(rng, tier):
     # a cached sorted view must not survive a change of content: queries (rank / quantile / CDF / view), then update, merge of every
     # source class (empty, single item, exact mode 2..k-1 items, estimation mode; lvalue and rvalue) or copy assignment, then the SAME queries
     for vi in range(16 if not thorough else 160):
-        kind = rng.choice([0, 0, 1, 2]); k = rng.choice([8, 8, 9, 16, 20])
+        kind = rng.choice([0, 0, 1, 2, 3]); k = rng.choice([8, 8, 9, 16, 20])
         tn = rng.choice([1, 3, k - 1, k, 3 * k + 1, rng.randrange(1, 10 * k)])          # exact-mode and estimation-mode targets
         xs = stream(rng, tn)
         ops = [[99, rng.randrange(1 << 30)], [1, 0, kind, k]] + [[2, 0, x] for x in xs]
@@ -291,7 +292,7 @@ def gen_c07(rng, tier):
         ops += queries()
         cases.append(dict(id='kllview%d' % vi, ops=ops, tags=['merge' if change.startswith('merge') else 'compaction', 'query-change-query', change]))
     for ti in range(12 if not thorough else 120):
-        kind = rng.choice([0, 0, 1, 2])
+        kind = rng.choice([0, 0, 1, 2, 3, 3])
         ks = rng.sample([8, 9, 12, 16, 20, 50, 200, 400], rng.choice([3, 3, 4]))
         tops, m, sims, vals = tree_ops(rng, kind, ks, False)
         top = len(ks) - 1
@@ -299,7 +300,7 @@ def gen_c07(rng, tier):
         cases.append(dict(id='klltree%d' % ti, ops=ops, tags=['merge', 'merge-tree-depth>=2', 'mixed-k'] + (['compaction'] if m else [])))
     for ci in range(ncases):
         ops = []; tags = set()
-        kind = rng.choice([0, 0, 1, 1, 2])
+        kind = rng.choice([0, 0, 1, 1, 2, 3, 3])
         nreg = rng.choice([1, 2, 2, 3, 4])
         samek = rng.random() < 0.5
         k0 = rng.choice(KS)
@@ -309,7 +310,7 @@ def gen_c07(rng, tier):
             k = k0 if samek else rng.choice(KS)
             if rng.random() < 0.06:
                 ops.append([1, r, kind, rng.choice([0, 7, 65536, 1 << 20])])           # refused k
-            kk = kind if rng.random() > 0.04 else (kind + 1) % 3                        # rarely a different item type (merge refused)
+            kk = kind if rng.random() > 0.04 else (kind + 1) % 4                        # rarely a different item type (merge refused)
             ops.append([1, r, kk, k]); sims[r] = Sz(k); vals[r] = []; sims[r].kind = kk
         big = rng.random() < (0.12 if not thorough else 0.2)
         flips = 0; merges = 0
@@ -368,6 +369,7 @@ def gen_c07(rng, tier):
         if merges: tags.add('merge')
         if any(len(s.sz) > 1 and s.sz[0] == 0 for s in sims.values()): tags.add('level0-empty')
         if kind == 2: tags.add('string-greater')
+        if kind == 3: tags.add('stateful-comparator')
         if kind == 1: tags.add('double')
         if not samek and merges: tags.add('unequal-k')
         if not (flips or merges):
@@ -587,13 +589,13 @@ def history(rng, max_m):
     for _ in range(200):
         if rng.random() < 0.35:
             # merge tree of depth >= 2 with 3 distinct k, the deepest operand in estimation mode (min_k != k of the direct operand)
-            kind = rng.choice([0, 0, 1, 2])
+            kind = rng.choice([0, 0, 1, 2, 3])
             tops, m, sims, vals = tree_ops(rng, kind, rng.sample([8, 9, 10, 12, 16, 20], 3), True)
             if 1 <= m <= max_m and vals[2]:
                 return tops, m, 2, vals[2]
             continue
         nreg = rng.choice([1, 1, 2, 2, 3])
-        kind = rng.choice([0, 0, 0, 1, 2])
+        kind = rng.choice([0, 0, 0, 1, 2, 3])
         ks = [rng.choice([8, 8, 9]) for _ in range(nreg)]
         ops = [[1, r, kind, ks[r]] for r in range(nreg)]
         sims = [Sz(k) for k in ks]; vals = [[] for _ in range(nreg)]
@@ -621,7 +623,7 @@ def gc_odd_history(rng, max_m):
     """merge of two estimation-mode sketches (k = 8) in which general_compress compacts an ODD level above a level it has already
     compacted in the same pass (the left-over item is moved to a lower output position); found with the size-only simulation"""
     for _ in range(400):
-        kind = rng.choice([0, 0, 1, 2])
+        kind = rng.choice([0, 0, 1, 2, 3])
         na, nb = (rng.randrange(10, 20), rng.randrange(19, 28)) if rng.random() < 0.8 else (rng.randrange(10, 60), rng.randrange(10, 60))
         a = Sz(8); b = Sz(8); m = 0
         for _ in range(na): m += a.internal_update()
